@@ -27,6 +27,14 @@ class FakeResponse:
     def close(self):
         pass
 
+    def json(self):
+        import json
+        return json.loads(self.content.decode("utf-8"))
+
+
+DCSERV = re.compile(r"^(https?://[^/]+/api/3/action/dcserv\?id=[0-9a-f-]+)"
+                    r"&version=(\d+)&query=([a-z_]+)(.*)$")
+
 
 class FakeHost:
     def __init__(self, flavour="rfc"):
@@ -34,6 +42,14 @@ class FakeHost:
         self.flavour = flavour
         self.log = []        # (url, range header or None)
         self.hosts = set()
+        self.dcor = {}       # dcserv base url -> {query: result}
+
+    def add_dcor(self, base_url, answers):
+        """A DCOR resource (dcserv API version 2): `answers` maps a query
+        name (metadata, basins, logs, tables, valid, size, ...) to the
+        result the server returns for it."""
+        self.dcor[base_url] = dict(answers)
+        self.hosts.add(urlparse(base_url).hostname)
 
     def add(self, url, blob):
         self.blobs[url] = bytes(blob)
@@ -43,6 +59,17 @@ class FakeHost:
     def get(self, url, headers=None, stream=False, timeout=None, **kw):
         rng = (headers or {}).get("Range")
         self.log.append((url, rng))
+        m = DCSERV.match(url)
+        if m:
+            import json
+            res = self.dcor.get(m.group(1))
+            if res is None or m.group(3) not in res:
+                body = {"success": False,
+                        "error": {"message": "Not found"}}
+            else:
+                body = {"success": True, "result": res[m.group(3)]}
+            return FakeResponse(200, json.dumps(body).encode("utf-8"),
+                                {"content-type": "application/json"})
         if url not in self.blobs:
             return FakeResponse(404, b"not found", reason="Not Found")
         blob = self.blobs[url]
@@ -119,23 +146,184 @@ class FakeSocketModule:
         return _FakeSocketObj(self._host)
 
 
-class installed:
-    """Context manager: route dclab.http_utils through a FakeHost."""
+class _Raw:
+    """Body object of a botocore AWSResponse."""
 
-    def __init__(self, host):
+    def __init__(self, data):
+        import io
+        self._b = io.BytesIO(data)
+
+    def stream(self, amt=1024, decode_content=None):
+        while True:
+            c = self._b.read(amt)
+            if not c:
+                break
+            yield c
+
+    def read(self, amt=None, decode_content=None):
+        return self._b.read(amt)
+
+    def release_conn(self):
+        pass
+
+    def close(self):
+        pass
+
+
+def _s3_send(host):
+    """Replacement for botocore.httpsession.URLLib3Session.send: path-style
+    S3 requests (HEAD / GET with Range) are answered from the host's blobs
+    the way an S3 store does (206 + Content-Range; InvalidRange for a first
+    position beyond the object; a syntactically invalid range is ignored)."""
+    import botocore.awsrequest
+
+    def send(self, request):
+        url = request.url.split("?")[0]
+        hdr = {k.lower(): (v.decode() if isinstance(v, bytes) else v)
+               for k, v in request.headers.items()}
+        rng = hdr.get("range")
+        up = urlparse(url)
+        # dclab builds the endpoint with an explicit port; blobs are
+        # registered without one
+        plain = f"{up.scheme}://{up.hostname}{up.path}"
+        host.log.append((request.method + " " + plain, rng))
+        blob = host.blobs.get(plain, host.blobs.get(url))
+
+        def resp(status, headers, data=b""):
+            return botocore.awsrequest.AWSResponse(
+                request.url, status, headers, _Raw(data))
+        if blob is None:
+            body = (b"<?xml version='1.0'?><Error><Code>NoSuchKey</Code>"
+                    b"<Message>not found</Message></Error>")
+            return resp(404, {"Content-Length": str(
+                0 if request.method == "HEAD" else len(body)),
+                "Content-Type": "application/xml"},
+                b"" if request.method == "HEAD" else body)
+        base = {"Content-Length": str(len(blob)),
+                "ETag": '"' + hashlib.md5(blob).hexdigest() + '"',
+                "Last-Modified": "Wed, 21 Oct 2015 07:28:00 GMT",
+                "Accept-Ranges": "bytes",
+                "Content-Type": "binary/octet-stream"}
+        if request.method == "HEAD":
+            return resp(200, base)
+        m = re.fullmatch(r"bytes=(\d+)-(\d*)", rng.strip()) if rng else None
+        if m:
+            first = int(m.group(1))
+            last = int(m.group(2)) if m.group(2) else len(blob) - 1
+            if last >= first:
+                if first >= len(blob):
+                    body = (b"<?xml version='1.0'?><Error><Code>InvalidRange"
+                            b"</Code><Message>The requested range is not "
+                            b"satisfiable</Message></Error>")
+                    return resp(416, {"Content-Length": str(len(body)),
+                                      "Content-Type": "application/xml"},
+                                body)
+                data = blob[first:last + 1]
+                h = dict(base)
+                h["Content-Length"] = str(len(data))
+                h["Content-Range"] = (f"bytes {first}-{first + len(data) - 1}"
+                                      f"/{len(blob)}")
+                return resp(206, h, data)
+        return resp(200, base, blob)
+    return send
+
+
+class installed:
+    """Context manager: route dclab.http_utils (requests sessions, socket
+    probes), the DCOR API client and boto3/botocore through a FakeHost."""
+
+    def __init__(self, host, s3=False):
         self.host = host
+        self.s3 = s3
 
     def __enter__(self):
         from dclab import http_utils
+        from dclab.rtdc_dataset.fmt_dcor import api as dcor_api
         self.mod = http_utils
+        self.dcor_api = dcor_api
         self.saved = (http_utils.session_cache, http_utils.socket,
                       http_utils.REQUESTS_AVAILABLE)
-        http_utils.session_cache = FakeSessionCache(self.host)
+        self.saved_dcor = dcor_api.session_cache
+        fsc = FakeSessionCache(self.host)
+        http_utils.session_cache = fsc
+        dcor_api.session_cache = fsc
         http_utils.socket = FakeSocketModule(self.host)
         http_utils.REQUESTS_AVAILABLE = True
+        if self.s3:
+            import botocore.httpsession
+            from dclab.rtdc_dataset import fmt_s3
+            self.fmt_s3 = fmt_s3
+            self.saved_s3 = (botocore.httpsession.URLLib3Session.send,
+                             fmt_s3.socket)
+            botocore.httpsession.URLLib3Session.send = _s3_send(self.host)
+            fmt_s3.socket = FakeSocketModule(self.host)
         return self.host
 
     def __exit__(self, *a):
         (self.mod.session_cache, self.mod.socket,
          self.mod.REQUESTS_AVAILABLE) = self.saved
+        self.dcor_api.session_cache = self.saved_dcor
+        if self.s3:
+            import botocore.httpsession
+            (botocore.httpsession.URLLib3Session.send,
+             self.fmt_s3.socket) = self.saved_s3
         return False
+
+
+class StubS3Object:
+    """Stands in for boto3's `s3.Object` (content_length, e_tag, get with a
+    Range) so that dclab's S3File can be built without a boto3 session
+    (that costs 0.2 s per object - too slow for a state-space search)."""
+
+    def __init__(self, blob, log=None):
+        self.blob = bytes(blob)
+        self.log = log if log is not None else []
+
+    @property
+    def content_length(self):
+        return len(self.blob)
+
+    @property
+    def e_tag(self):
+        return '"' + hashlib.md5(self.blob).hexdigest() + '"'
+
+    def load(self):
+        pass
+
+    def get(self, Range=None, **kw):
+        import io
+        self.log.append(Range)
+        blob = self.blob
+        m = re.fullmatch(r"bytes=(\d+)-(\d*)", Range.strip()) if Range \
+            else None
+        data = blob
+        if m:
+            first = int(m.group(1))
+            last = int(m.group(2)) if m.group(2) else len(blob) - 1
+            if last >= first:
+                if first >= len(blob):
+                    import botocore.exceptions
+                    raise botocore.exceptions.ClientError(
+                        {"Error": {"Code": "InvalidRange",
+                                   "Message": "The requested range is not "
+                                              "satisfiable"}}, "GetObject")
+                data = blob[first:last + 1]
+        return {"Body": io.BytesIO(data), "ContentLength": len(data)}
+
+
+class _StubClient:
+    def close(self):
+        pass
+
+
+def stub_s3file(url, blob, chunk_size, keep_chunks, log=None):
+    """dclab's S3File on a StubS3Object, with the chunk geometry of the
+    search (S3File itself offers no such parameters)."""
+    from dclab import http_utils
+    from dclab.rtdc_dataset import fmt_s3
+    f = object.__new__(fmt_s3.S3File)
+    f.s3_object = StubS3Object(blob, log)
+    f.s3_client = _StubClient()
+    http_utils.HTTPFile.__init__(f, url, chunk_size=chunk_size,
+                                 keep_chunks=keep_chunks)
+    return f
